@@ -1,8 +1,182 @@
-(* Properties/C02.v -- stub while the proofs are being written *)
+(* Properties/C02.v -- Per-file history and last-changed revisions are recorded correctly.
+   Statements only; the model is Model/FileGraph.v (record_iter_changes, _heads,
+   _do_generate_text_key_index), the proofs are in Theory/FileGraph.v.
+
+   Vocabulary.  cfg = (per_file_heads, rich_root): per_file_heads = true is
+   PackCommitBuilder._heads (2a, pack-0.92), false is VersionedFileCommitBuilder._heads
+   (heads in the revision graph: knit formats, RemoteRepository).  A history is
+   [run c ops]: ops is ANY list of operations (parents, tree) -- initial commit, commit,
+   merge with any number of parents, ghost parents -- subject only to [ops_ok] (parents are
+   earlier revisions or ghosts whose id is never reused).  [entry_at h r f] is the
+   inventory entry of file f in revision r, [e_rev] its last-changed revision,
+   [text_parents h f r] the parents stored for the text key (f, r), [parent_versions h f r]
+   the last-changed revisions of f in the parents of r (in parent order),
+   [hgraph c h f] the graph in which heads are taken (per-file graph of f, or the revision
+   graph), [checker c h] what _do_generate_text_key_index computes, [inconsistent c h] the
+   number of entries of check's inconsistent_parents.  [versioned c e] is false only for
+   the tree root of formats without rich roots (it has no per-file graph). *)
 From Coq Require Import List Arith Bool.
-From BV Require Import Lib.Dag Model.FileGraph Theory.FileGraph.
+From BV Require Import Lib.Dag Theory.DagFacts Model.FileGraph Theory.FileGraph.
 Import ListNotations.
 
-Theorem C02_decision_table_total : forall d, In d all_decs.
-Proof. exact all_decs_complete. Qed.
-Print Assumptions C02_decision_table_total.
+(* ---- the decision table of record_iter_changes (finite: 2^10 * 3 rows, all checked) ---- *)
+
+Theorem C02_decision_table :
+  forall d : dec,
+    (* carried over only with exactly one head, its entry at hand, and nothing changed against it *)
+    (decide d = Carry ->
+       d_one_head d = true /\ d_found d = true /\ d_kind_same d = true /\ d_parent_same d = true
+       /\ d_name_same d = true
+       /\ (d_kind d = KFile -> d_exec_same d = true /\ d_content_same d = true)
+       /\ (d_kind d = KLink -> d_content_same d = true))
+    (* the basis entry is kept untouched iff nothing changed and no other parent differs *)
+    /\ (decide d = Skip <-> d_changed d = false /\ d_has_merged d = false)
+    (* several heads, no head, or a head whose entry is not at hand force a new version *)
+    /\ ((d_changed d = true \/ d_has_merged d = true) -> (d_one_head d = false \/ d_found d = false) -> decide d = New)
+    (* the result does not depend on whether the file is in the basis *)
+    /\ decide (mkDec (negb (d_in_basis d)) (d_changed d) (d_has_merged d) (d_one_head d) (d_found d) (d_kind_same d)
+                     (d_parent_same d) (d_name_same d) (d_exec_same d) (d_content_same d) (d_kind d)) = decide d.
+Proof. exact decision_table_props. Qed.
+Print Assumptions C02_decision_table.
+
+(* ---- per-file parents are exactly the heads among the versions in the revision's parents ---- *)
+
+Theorem C02_text_parents_are_heads :
+  forall c ops, ops_ok c ops = true ->
+  let h := run c ops in
+  forall f r ps, text_parents h f r = Some ps ->
+    ps = oheads (hgraph c h f) (parent_versions h f r)
+    /\ (forall p, In p ps <-> In p (heads (hgraph c h f) (parent_versions h f r))).
+Proof. exact text_parents_are_heads. Qed.
+Print Assumptions C02_text_parents_are_heads.
+
+(* [heads] is the set of maximal keys (Theory.DagFacts.heads_spec), spelled out for the stored parents *)
+Theorem C02_text_parents_maximal :
+  forall c ops, ops_ok c ops = true ->
+  let h := run c ops in
+  forall f r ps, text_parents h f r = Some ps ->
+  forall p, In p ps <->
+    In p (parent_versions h f r)
+    /\ forall p', In p' (parent_versions h f r) -> p' <> p -> is_ancestor (hgraph c h f) p p' = false.
+Proof.
+  intros c ops OK h f r ps T p.
+  destruct (text_parents_are_heads c ops OK f r ps T) as [_ H]. fold h in H. rewrite H. apply heads_spec.
+Qed.
+Print Assumptions C02_text_parents_maximal.
+
+(* ---- last-changed revisions ------------------------------------------------------------------ *)
+
+Theorem C02_last_changed_is_latest_change :
+  forall c ops, ops_ok c ops = true ->
+  let h := run c ops in
+  forall r f e, entry_at h r f = Some e ->
+    (* the named revision is r or an ancestor of r and holds the identical entry
+       (same content, name, parent directory, kind, executable bit, same last-changed) *)
+    (e_rev e <= r /\ reach (h_g h) (e_rev e) r /\ entry_at h (e_rev e) f = Some e)
+    /\ (versioned c e = false -> e_rev e = r)
+    /\ (versioned c e = true ->
+        (* (f, last-changed) is a stored text key *)
+        text_parents h f (e_rev e) <> None
+        (* r is named only if the file is not identical to the one head among the parents' versions
+           (it changed against it, or there are several heads, or none) *)
+        /\ (e_rev e = r -> forall pe, In pe (parent_entries_at (h_g h) (h_trees h) f r) ->
+              oheads (hgraph c h f) (parent_versions h f r) = [e_rev pe] -> e_attrs pe <> e_attrs e)
+        (* otherwise the entry is the parent entry holding the unique head: nothing changed since *)
+        /\ (e_rev e <> r -> In e (parent_entries_at (h_g h) (h_trees h) f r)
+                            /\ oheads (hgraph c h f) (parent_versions h f r) = [e_rev e])).
+Proof. exact last_changed_is_latest_change. Qed.
+Print Assumptions C02_last_changed_is_latest_change.
+
+(* plain commits: last-changed = this revision iff the entry differs from the parent's (or is new) *)
+Theorem C02_linear_commit :
+  forall c ops, ops_ok c ops = true ->
+  let h := run c ops in
+  forall r p f e, parents (h_g h) r = [p] -> entry_at h r f = Some e -> versioned c e = true ->
+    (e_rev e = r <-> forall pe, entry_at h p f = Some pe -> e_attrs pe <> e_attrs e).
+Proof. exact linear_commit. Qed.
+Print Assumptions C02_linear_commit.
+
+(* The literal reading of the property ("the most recent revision in which the file actually
+   changed") is false of per-file merge nodes: after identical parallel changes the merge records
+   a new version (parents [1; 2]) although the file is identical in every parent.  This is bzr's
+   documented design (record_iter_changes: "the per-file graph will reflect a merge"), not a defect;
+   C02_last_changed_is_latest_change is the exact statement. *)
+Theorem C02_last_changed_literal_refuted :
+  let c := mkCfg true true in
+  exists ops r f e, ops_ok c ops = true /\ entry_at (run c ops) r f = Some e /\ e_rev e = r
+    /\ parents (h_g (run c ops)) r <> []
+    /\ (forall p, In p (parents (h_g (run c ops)) r) ->
+          exists pe, entry_at (run c ops) p f = Some pe /\ e_attrs pe = e_attrs e)
+    /\ text_parents (run c ops) f r = Some [1; 2].
+Proof. exact last_changed_literal_refuted. Qed.
+Print Assumptions C02_last_changed_literal_refuted.
+
+(* ---- the consistency check ---------------------------------------------------------------------- *)
+
+(* PackCommitBuilder (2a, pack-0.92): for every history the checker's expected parents are the
+   stored parents, for every text key; check reports no inconsistent parents *)
+Theorem C02_checker_agrees :
+  forall c ops, per_file_heads c = true -> ops_ok c ops = true ->
+    checker c (run c ops) = h_texts (run c ops) /\ inconsistent c (run c ops) = 0.
+Proof. exact checker_agrees. Qed.
+Print Assumptions C02_checker_agrees.
+
+(* VersionedFileCommitBuilder._heads (revision-graph heads: knit formats, RemoteRepository): FALSE.
+   Witness: delete a file, re-add it with the same file id, merge with a branch that kept the old
+   version.  Stored parents [3], the checker expects [1; 3].  Replayed on a real knit repository:
+   check reports the inconsistent parents (candidate finding C02-global-heads-readd). *)
+Theorem C02_checker_agrees_global_heads_refuted :
+  forall rich,
+  let c := mkCfg false rich in
+  exists ops, ops_ok c ops = true /\ heads_agree c ops = false
+              /\ inconsistent c (run c ops) <> 0
+              /\ text_parents (run c ops) 3 6 = Some [3]
+              /\ text_parents_in (checker c (run c ops)) 3 6 = Some [1; 3].
+Proof. exact checker_global_refuted. Qed.
+Print Assumptions C02_checker_agrees_global_heads_refuted.
+
+(* ... and it holds under the executable guard "at every commit the revision-graph heads of the
+   candidates are their per-file heads" *)
+Theorem C02_checker_agrees_global_heads_guarded :
+  forall rich ops,
+  let c := mkCfg false rich in
+  ops_ok c ops = true -> heads_agree c ops = true ->
+    checker c (run c ops) = h_texts (run c ops) /\ inconsistent c (run c ops) = 0.
+Proof. exact checker_agrees_global_guarded. Qed.
+Print Assumptions C02_checker_agrees_global_heads_guarded.
+
+(* in every history, whatever the builder: a head in the revision graph is a head in the per-file
+   graph, so revision-graph heads can only drop per-file parents, never add a wrong one *)
+Theorem C02_global_heads_subset_file_heads :
+  forall c ops, ops_ok c ops = true ->
+  let h := run c ops in
+  forall f cands x, In x (oheads (h_g h) cands) -> In x (oheads (file_dag (h_texts h) f) cands).
+Proof. exact global_heads_subset_file_heads. Qed.
+Print Assumptions C02_global_heads_subset_file_heads.
+
+(* ---- the code's merged_ids / parent_entries / carry-over logic computes the specification --------- *)
+
+(* [spec_entry G new P a]: P = the entries of the file in the parents; if their versions have exactly
+   one head and the entry holding it has attributes a, keep that entry, else record a new version
+   whose parents are the heads.  record_iter_changes (commit_entry) computes exactly this whenever
+   equal versions in the parents are equal entries (an invariant of every history). *)
+Theorem C02_commit_entry_refines_spec :
+  forall c g texts new ptrees f a,
+    rich_root c || negb (is_root a) = true ->
+    same_rev_same_entry (entries_of f ptrees) ->
+    commit_entry c g texts new ptrees f a
+    = spec_entry (heads_graph c g texts f) new (entries_of f ptrees) a.
+Proof. exact commit_entry_spec. Qed.
+Print Assumptions C02_commit_entry_refines_spec.
+
+(* non-vacuity: criss-cross, revert after merge, identical parallel change, kind change/rename,
+   delete + re-add (Theory/FileGraph.v: ex_crisscross, ex_revert_after_merge, parallel_ops,
+   ex_kind_change, readd_ops) are histories satisfying ops_ok on which the statements above
+   speak about carried-over entries, per-file merge nodes and new versions. *)
+Example C02_nonvacuous :
+  ops_ok (mkCfg true true) crisscross_ops = true /\ ops_ok (mkCfg true true) revert_ops = true
+  /\ ops_ok (mkCfg true true) kind_ops = true /\ ops_ok (mkCfg true false) readd_ops = true
+  /\ text_parents (run (mkCfg true true) crisscross_ops) 3 5 = Some [3; 4]
+  /\ option_map e_rev (entry_at (run (mkCfg true true) revert_ops) 4 3) = Some 2.
+Proof. vm_compute. repeat split. Qed.
+Print Assumptions C02_nonvacuous.
